@@ -56,6 +56,7 @@ func c10Chain(maxPages, maxLen int) []*c10Page {
 		}
 		pages[i] = p
 	}
+	alsoFirst := verifrt.Choice("alsofirst", 2) == 1
 	for i, p := range pages {
 		itemsKey, kind, nextKey := "items", "CollectionPage", "next"
 		if ordered {
@@ -75,6 +76,9 @@ func c10Chain(maxPages, maxLen int) []*c10Page {
 				l[j] = float64(t)
 			}
 			p.obj[itemsKey] = l
+		}
+		if i > 0 && len(pages) > 1 && alsoFirst {
+			p.obj["first"] = pages[1].obj // pages may point back at the first page; paging follows "next"
 		}
 		if i+1 < len(pages) {
 			p.link = linkNext
